@@ -352,18 +352,20 @@ PROPS = {
         "explanation": "C05Bdd.* theorems; comp stream: implementation vs truth table of the input text, vs the mirrored compile functions (exact diagrams).",
     },
     "C06": {
-        "modules": ["RsddModel.Props.C06"],
+        "modules": ["RsddModel.Props.C06", "RsddModel.Props.C06Real"],
         "streams": [TD_STREAM],
         "rule": "CNFs as in C05 x a random permutation of the variables as decision order x {standard, semantic(U64_LARGEST)} store; for every "
                 "(variable, value) the result and its negation are conditioned; non-trivial = result has a node below a node",
-        "trusted": ["theorems are about the compiler over an abstract solver satisfying SolverSpec + HashSound + FreeDecide (proved for the reference "
-                    "solver NaiveSolver; for the mirrored real propagator they rest on C09 and on the hash not wrapping); the mirrored compiler run on the "
-                    "mirrored propagator is compared node-for-node with the real compiler",
+        "trusted": ["the compiler theorem is proved over an abstract solver contract (SolverSpec + FreeDecide + HashSound) and the contract is discharged for the "
+                    "mirrored real propagator (C06Real.compileTopdown_real_correct) under the no-wrap hypothesis on the hash (product of all literal primes "
+                    "< 2^128: the code multiplies with wrapping_mul, so equal hashes imply equal residuals only without wrap-around); the mirrored compiler run "
+                    "on the mirrored propagator is compared node-for-node with the real compiler",
                     "semantic store: correct under CollisionFree (unconditionally false by pigeonhole)"],
         "assumptions": ["component-cache keys determine the residual formula (HashSound)", "no hash collision among requested nodes (semantic store)"],
         "level_text": "Kernel-checked: for every solver meeting the stated contract and every order enumerating the CNF's variables the compiled diagram "
                       "denotes the CNF, decides no variable twice on a path and is the false constant iff the CNF is unsatisfiable "
-                      "(topdownH_correct, compileTopdown_correct; unconditional for the reference solver: naiveCompile_correct); conditioning a free "
+                      "(topdownH_correct, compileTopdown_correct; unconditional for the reference solver: naiveCompile_correct; for the mirrored real "
+                      "two-watched-literal propagator incl. component caching by prime-product hash: compileTopdown_real_correct, under no hash wrap-around); conditioning a free "
                       "diagram or its negation yields the restricted function (cond_correct_dnnf); negative theorems for the pinned cond_helper and "
                       "root chain (condOrig_wrong, compileTopdownOrig_not_false).",
         "level_note": "Trusted: Lean kernel; allowed axioms; harness+driver. Conditional on the solver contract (HashSound is inherently conditional: wrapping_mul); semantic store under CollisionFree.",
